@@ -55,7 +55,7 @@ fn shape_str<T>(m: &Matrix<T>) -> String {
 
 macro_rules! one_op {
     ($out:expr, $t:ty, $tn:expr, $opn:expr, $op:tt, $opa:tt, $ev_l:expr, $s_l:expr, $ev_r:expr, $s_r:expr) => {{
-        for (order, nr, nc) in [(ORDERS[0], 2usize, 3usize), (ORDERS[1], 2, 3), (ORDERS[0], 64, 65), (ORDERS[1], 3, 1400)] {
+        for (order, nr, nc) in [(ORDERS[0], 2usize, 3usize), (ORDERS[1], 2, 3), (ORDERS[0], 64, 65), (ORDERS[1], 3, 1400), (ORDERS[1], 257, 300)] {
             // ---- matrix on the left: element op scalar
             let ev: Vec<$t> = (0..nr * nc).map(|k| $ev_l[k % 6] as $t).collect();
             let s: $t = $s_l as $t;
@@ -433,7 +433,7 @@ pub fn run_c18(out: &mut Out, _rng: &mut Rng, tier: Tier) -> String {
         out.oracle_fail(&format!("ledger at the end of the run: {} tokens still live, {} double drops", s.live, s.double_drops));
     }
     out.exhaustive = true;
-    "exhaustive over the impl table: 14 primitive types x {+,-,*,/,%} x 16 operator forms (matrix or &matrix, element or &element, scalar or &scalar, scalar left or right) + 2 assign forms, each on 2x3 matrices in both storage orders and on a 64x65 and a 3x1400 matrix (beyond any plausible small-size threshold) \
+    "exhaustive over the impl table: 14 primitive types x {+,-,*,/,%} x 16 operator forms (matrix or &matrix, element or &element, scalar or &scalar, scalar left or right) + 2 assign forms, each on 2x3 matrices in both storage orders and on a 64x65, a 3x1400 and a 257x300 matrix (4160, 4200 and 77100 elements: beyond the sizes at which an implementation might switch to a blocked or parallel path) \
      with non-commutative witnesses (distinct non-zero operands, no overflow), results compared bitwise with the primitive operator applied in both orientations (the model supplies the orientation from the re-extracted table); \
      float signed zeros / infinities and awkward finite values (non-power-of-two and subnormal scalars, all assign forms); negative elements / scalars and power-of-two, unit and zero scalars for the six signed integer types (truncated / and %); the generic family on a zero-sized source with a sized output; unary negation (owned and borrowed) for the 8 signed/float types; the generic scalar_operation family (three variants) with a recording closure on token matrices of every shape up to the bound. \
      A case = one primitive type (all its forms) or one shape".to_string()
